@@ -13,6 +13,7 @@
 #include <unordered_map>
 
 #ifndef CHAISCRIPT_NO_THREADS
+#include <atomic>
 #include <mutex>
 #include <shared_mutex>
 #include <thread>
@@ -91,23 +92,31 @@ namespace chaiscript::detail::threading {
     Thread_Storage &operator=(const Thread_Storage &) = delete;
     Thread_Storage &operator=(Thread_Storage &&) = delete;
 
-    ~Thread_Storage() { t().erase(this); }
+    ~Thread_Storage() { t().erase(m_key); }
 
-    inline const T *operator->() const noexcept { return &(t()[this]); }
+    inline const T *operator->() const noexcept { return &(t()[m_key]); }
 
-    inline const T &operator*() const noexcept { return t()[this]; }
+    inline const T &operator*() const noexcept { return t()[m_key]; }
 
-    inline T *operator->() noexcept { return &(t()[this]); }
+    inline T *operator->() noexcept { return &(t()[m_key]); }
 
-    inline T &operator*() noexcept { return t()[this]; }
+    inline T &operator*() noexcept { return t()[m_key]; }
 
-    void *m_key;
+    /// Identifies this instance in every thread's map. It must never be reused: the destructor can only erase the
+    /// entry of the thread it runs on, so the address of the object is not a safe key - a later object at the same
+    /// address would inherit the entries other threads still hold.
+    const std::size_t m_key = next_key();
 
   private:
+    static std::size_t next_key() noexcept {
+      static std::atomic<std::size_t> counter{0};
+      return ++counter;
+    }
+
     /// todo: is it valid to make this noexcept? The allocation could fail, but if it
     /// does there is no possible way to recover
-    static std::unordered_map<const void *, T> &t() noexcept {
-      static thread_local std::unordered_map<const void *, T> my_t;
+    static std::unordered_map<std::size_t, T> &t() noexcept {
+      static thread_local std::unordered_map<std::size_t, T> my_t;
       return my_t;
     }
   };
